@@ -118,6 +118,7 @@ def discharge(axioms, o, want_model=True):
     for a in axioms: s.add(a)
     for p in o.pc: s.add(p)
     s.add(z3.Not(o.goal))
+    for inst in mem_instances(list(axioms) + list(o.pc) + [z3.Not(o.goal)]): s.add(inst)
     t = time.time(); r = s.check(); dt = time.time() - t
     if r == z3.unsat: return 'discharged', 'z3', dt, None, ''
     if r == z3.sat: return 'refuted', 'z3', dt, s.model(), ''
@@ -185,7 +186,7 @@ def verify_one(key):
         for i, (rs, rv, line) in enumerate(ex.raises):
             g = cx._raises(rs, rv) if cx._raises is not None else z3.BoolVal(False)
             obls.append(Obligation(f'raise{i}.allowed', rs.pc, g, 'raises', line))
-        axioms = ex.axioms
+        axioms = ex.axioms + mem_axioms()
         rec['trusted'] = sorted(set(cx.trusted) | {f'callee contract: {n}' for n in ex.trusted})
         # vacuity: precondition satisfiable, and which exits are reachable
         s = z3.Solver(); s.set('timeout', Z3_TIMEOUT_MS)
